@@ -140,7 +140,7 @@ def _install(fs, histcontrol):
 FN = "/h/xonsh-s.json"
 TEXTS = ["ls", "pwd", "echo 1"]
 HC = ["", "ignoredups", "ignoreerr", "ignoredups,ignoreerr", "ignorespace"]
-OPS = ["append_a", "append_same", "append_b_fail", "append_spc", "flush", "append_c"]
+OPS = ["append_a", "append_same", "append_b_fail", "append_spc", "flush", "append_c", "clear"]
 
 
 def _pick(pool, i):
@@ -175,6 +175,11 @@ def _history(bufsize, histcontrol, ops):
         if op == "flush":
             h.flush()
             do_flush()
+        elif op == "clear":
+            # `history clear`: the session starts over, in memory and on disk; what is stored afterwards reads back like in a new session
+            h.clear()
+            del file_ref[:]
+            del buf_ref[:]
         else:
             n += 1
             text = {"append_a": "ls", "append_same": last_text[0], "append_b_fail": "pwd", "append_spc": " secret", "append_c": "echo 1"}[op]
@@ -371,9 +376,9 @@ def ob_offsets(r0: str, r1: str, r2: str, r3: str, nested: bool) -> Optional[str
 OBLIGATIONS = [
     Obligation("buffer", ob_buffer,
                bounds="histories of 1..4 (quick) / 5 (thorough) operations out of {append ls, append same-as-previous, append a failing "
-                      "command, append a space-prefixed command, append another, flush}; buffer size 1..3; five $HISTCONTROL settings; "
+                      "command, append a space-prefixed command, append another, flush, clear}; buffer size 1..3; five $HISTCONTROL settings; "
                       "after every operation len / [i] / [-i] / slices / items() and finally the decoded file are compared",
-               pre=["1 <= bufsize <= 3", "0 <= hc_i < 5", "0 <= o0 < 6", "0 <= o1 < 6", "0 <= o2 < 6", "0 <= o3 < 6", "0 <= o4 < 6"],
+               pre=["1 <= bufsize <= 3", "0 <= hc_i < 5", "0 <= o0 < 7", "0 <= o1 < 7", "0 <= o2 < 7", "0 <= o3 < 7", "0 <= o4 < 7"],
                parts={"quick": [dict(n=k, bufsize=b) for k in (1, 2, 3) for b in (1, 2, 3)] + [dict(n=4, bufsize=b, hc_i=h) for b in (1, 2, 3) for h in range(5)],
                       "thorough": [dict(n=k, bufsize=b) for k in (1, 2, 3) for b in (1, 2, 3)] + [dict(n=4, bufsize=b, hc_i=h) for b in (1, 2, 3) for h in range(5)]
                                   + [dict(n=5, bufsize=b, hc_i=h, o0=o) for b in (1, 2, 3) for h in range(5) for o in range(6)]},
